@@ -40,7 +40,7 @@ from elementpath.sequence_types import match_sequence_type
 from elementpath.xpath_context import XPathSchemaContext
 from elementpath.xpath_nodes import XPathNode, DocumentNode, ElementNode, EtreeElementNode
 from elementpath.xpath_tokens import XPathFunction
-from elementpath.regex import RegexError, translate_pattern
+from elementpath.regex import RegexError, translate_pattern, escape_literal_pattern
 from elementpath.collations import CollationManager
 
 from ._xpath2_operators import XPath2Parser
@@ -852,7 +852,7 @@ def evaluate__matches(self: XPathFunction, context: ta.ContextType = None) -> bo
             if c in 'smix':
                 flags |= getattr(re, c.upper())
             elif c == 'q' and self.parser.version > '2':
-                pattern = re.escape(pattern)
+                pattern = escape_literal_pattern(pattern)
             else:
                 raise self.error('FORX0001', "Invalid regular expression flag %r" % c)
 
@@ -887,7 +887,7 @@ def evaluate__replace(self: XPathFunction, context: ta.ContextType = None) -> st
             if c in 'smix':
                 flags |= getattr(re, c.upper())
             elif c == 'q' and self.parser.version > '2':
-                pattern = re.escape(pattern)
+                pattern = escape_literal_pattern(pattern)
                 q_flag = True
             else:
                 raise self.error('FORX0001', "Invalid regular expression flag %r" % c)
@@ -960,7 +960,7 @@ def evaluate__tokenize(self: XPathFunction, context: ta.ContextType = None) -> t
             if c in 'smix':
                 flags |= getattr(re, c.upper())
             elif c == 'q' and self.parser.version > '2':
-                pattern = re.escape(pattern)
+                pattern = escape_literal_pattern(pattern)
             else:
                 raise self.error('FORX0001', "Invalid regular expression flag %r" % c)
 
